@@ -40,6 +40,11 @@ def check(repo, col, tier):
     col.rule("R-C08-charge", "a stimulus of I nA adds I*dt of charge to its target compartment, whatever its geometry", 10)
     _charge(repo, col)
     col.rule("R-C08-pairing", "values and row indices of inputs are extended in the same order", 3)
+    from . import c19 as _c19
+    col.rule("R-C08-recs", "recordings are (rec_index, state) pairs with unique row labels; a view deletes exactly its own", 2)
+    _c19.recordings_matching(repo, col, "R-C08-recs")
+    col.rule("R-C08-rows", "one row of input values per row index", 4)
+    input_rows(repo, col, "R-C08-rows")
     cl = idx.compute_slots(repo, col, "R-C08-space", emit=("jaxedges", "rec_index", "external_inds"))
     _space_uses(repo, col, cl)
     _order(repo, col)
@@ -240,6 +245,45 @@ def _space_uses(repo, col, cl: Classifier):
             uses_index = any(x.op == "attr" and x.name == "index" for x in v.walk())
             col.check(uses_index, R, fi, f"add_clamps: {unparse(s.node)} takes the row labels of the handed-over table",
                       "row labels (.index) of the table", f"stores {v.short()}", node=s.node)
+
+
+def input_rows(repo, col, R):
+    """One row of values per row index: an input given once for a view of n rows is repeated n times (n = the number of rows the view
+    contributes to the index list: compartments for membrane quantities, edges for synaptic ones), and it is taken as it is only when
+    it already has exactly n rows.  Otherwise the value table and the index list of the module get out of step with the next call."""
+    for nm in ("_external_input", "_data_external_input"):
+        fi = repo.method("Module", nm)
+        ex = idx.expander(repo, fi)
+        terms = list(ex.returns) + [s_.value for s_ in ex.stores]
+        rep = next((r for t in terms for r in [T.find(t, lambda x: x.op == "mcall" and x.name == "repeat")] if r is not None), None)
+        if rep is None:
+            col.unk(R, fi, f"{nm}: an input given once is repeated for every row in view", "no repeat found", node=fi.node)
+            continue
+        vals = [p_ for p_ in fi.params if p_ in ("values", "state_array")] or [fi.params[2] if len(fi.params) > 2 else None]
+        ra = [a for a in rep.args if a.op != "free"]
+        cnt = rep.kw.get("repeats") or (ra[1] if len(ra) > 1 else None)
+        view_rows = lambda t: t is not None and T.find(t, lambda x: x.op == "call" and x.name == "len" and T.find(x.args[0], lambda y: y.op == "attr"
+                                                        and y.name in ("_nodes_in_view", "_edges_in_view", "nodes", "edges") and _selfp(y.args[0])) is not None) is not None
+        from_vals = lambda t: t is not None and T.find(t, lambda x: x.op == "param" and x.name in vals) is not None
+        ax = rep.kw.get("axis") or (ra[2] if len(ra) > 2 else None)
+        col.check(view_rows(cnt) and not from_vals(cnt) and ax is not None and ax.op == "const" and ax.name == 0, R, fi,
+                  f"{nm}: an input given once is repeated once per row in view (axis 0)", "repeat(values, len(rows in view), axis=0)",
+                  f"the input is repeated `{cnt.short(70) if cnt is not None else None}` times along axis {ax.short(10) if ax is not None else None}: the value table "
+                  f"gets another number of rows than the index list", node=rep.node or fi.node)
+        has_rep = lambda t: T.find(t, lambda y: y.op == "mcall" and y.name == "repeat") is not None
+        q = next((x for t in terms for x in [T.find(t, lambda x: x.op == "ifexp" and has_rep(x.args[1]) != has_rep(x.args[2]))] if x is not None), None)
+        if q is None:
+            col.unk(R, fi, f"{nm}: the input is taken as given only if it has one row per row in view", "condition not found", node=fi.node)
+            continue
+        c = q.args[0]
+        want = "==" if has_rep(q.args[2]) else "!="
+        ok = c.op == "cmp" and c.name == want and len(c.args) == 2 and ((view_rows(c.args[0]) and from_vals(c.args[1])) or (view_rows(c.args[1]) and from_vals(c.args[0])))
+        col.check(ok, R, fi, f"{nm}: the input is taken as given only if it has exactly one row per row in view", "num rows in view == number of value rows",
+                  f"{'taken as given' if want == '==' else 'repeated'} when `{c.short(110)}`", node=rep.node or fi.node)
+
+
+def _selfp(t):
+    return t.op == "param" and t.name == "self"
 
 
 def _pairing(repo, col, R="R-C08-pairing"):
